@@ -48,7 +48,7 @@ func arrayOf(cs []int, n int) *gozxing.BitArray {
 	return a
 }
 
-var bitsTokens = [][3]string{{"X", ".", "\n"}, {"X ", "  ", "\n"}, {"1", "0", "\r\n"}}
+var bitsTokens = [][3]string{{"X", ".", "\n"}, {"X ", "  ", "\n"}, {"1", "0", "\r\n"}, {"ab", "a", "\n"}}
 
 func main() {
 	{
@@ -92,7 +92,7 @@ func main() {
 						m = nm
 					}
 				case "parsestr":
-					tk := bitsTokens[a[2]%3]
+					tk := bitsTokens[a[2]%4]
 					var sb strings.Builder
 					for y := 0; y < a[1]; y++ {
 						for _, b := range hlib.Unchunk(e.B[y], a[0]) {
@@ -157,8 +157,8 @@ func main() {
 				case "dims":
 					e.R = []int{m.GetWidth(), m.GetHeight(), m.GetRowSize()}
 				case "tostring":
-					tk := bitsTokens[a[0]%3]
-					if a[0]%3 == 1 {
+					tk := bitsTokens[a[0]%4]
+					if a[0]%4 == 1 {
 						e.R = hlib.BytesToInts(m.String())
 					} else if tk[2] == "\n" {
 						e.R = hlib.BytesToInts(m.ToString(tk[0], tk[1]))
@@ -166,7 +166,7 @@ func main() {
 						e.R = hlib.BytesToInts(m.ToStringWithLineSeparator(tk[0], tk[1], tk[2]))
 					}
 				case "reparse":
-					tk := bitsTokens[a[0]%3]
+					tk := bitsTokens[a[0]%4]
 					if nm, err := gozxing.ParseStringToBitMatrix(m.ToStringWithLineSeparator(tk[0], tk[1], tk[2]), tk[0], tk[1]); err != nil {
 						e.Err = 1
 					} else {
@@ -202,6 +202,8 @@ func main() {
 					fail(arr.AppendBits(a[0]<<16|a[1], a[2]))
 				case "appendarr":
 					arr.AppendBitArray(arrayOf(e.B[0], a[0]))
+				case "appendself":
+					arr.AppendBitArray(arr)
 				case "axor":
 					fail(arr.Xor(arrayOf(e.B[0], a[0])))
 				case "reverse":
